@@ -94,7 +94,26 @@ func genC15(g *Gen) *Plan {
 		p.Scripts[key] = s
 	}
 	n := g.n(10, 28)
+	reloadAt := -1
+	if g.p(0.3) {
+		// a second configuration with other configured changes takes over half way (applied
+		// while nothing else runs): requests after it are compared against it
+		c2 := p.Configs[0]
+		c2.Upstreams = append([]UpstreamCfg(nil), c2.Upstreams...)
+		c2.Locations = append([]LocationCfg(nil), c2.Locations...)
+		c2.Upstreams[0].AcceptEncoding = pick(g, "", "gzip", "br")
+		l := c2.Locations[0]
+		l.ReqHeaders = pick(g, nil, []string{"X-Added-Req:two"})
+		l.RespHeaders = pick(g, nil, []string{"X-Added-Resp:v2"})
+		l.QueryStrings = pick(g, nil, []string{"added:2"})
+		c2.Locations[0] = l
+		p.Configs = append(p.Configs, c2)
+		reloadAt = n / 2
+	}
 	for i := 0; i < n; i++ {
+		if i == reloadAt {
+			p.Ops = append(p.Ops, Op{Kind: OpReload, Config: 1, Barrier: true, Quiesce: true}, Op{Kind: "noop", Barrier: true})
+		}
 		rs := pool[g.R.IntN(len(pool))]
 		op := reqOp(rs.method, hostA, rs.uri)
 		key := op.CacheKey()
@@ -159,6 +178,12 @@ func oracleC15(o *Outcome) []Violation {
 	var out []Violation
 	cfg := &o.Plan.Configs[0]
 	views := o.Views()
+	reloadOp := -1
+	for i, op := range o.Plan.Ops {
+		if op.Kind == OpReload {
+			reloadOp = i
+		}
+	}
 	locFor := func(uri string) *LocationCfg {
 		// reference routing for this profile's two locations: prefix location first
 		for i := range cfg.Locations {
@@ -186,6 +211,11 @@ func oracleC15(o *Outcome) []Violation {
 	}
 	for _, v := range views {
 		r := v.R
+		cfg = &o.Plan.Configs[0]
+		if reloadOp >= 0 && r.Op > reloadOp {
+			cfg = &o.Plan.Configs[1]
+			o.Hist.Probes["request-after-reconfiguration"]++
+		}
 		loc := locFor(r.URI)
 		if loc == nil {
 			continue
